@@ -148,12 +148,24 @@ def zeroOfRep : GoRep → Sc
   | .i32 => .w32 0 | .u32 => .w32 0 | .i64 => .w64 0 | .u64 => .w64 0 | .dur => .w64 0
   | .f32 => .f32 0 | .f64 => .f64 0 | .time => .time "zero"
 
+/-- decimal digits -/
+def parseNatLit : List Char → Option Nat
+  | [] => none
+  | cs => cs.foldl (fun acc c => match acc with
+      | some n => if c.isDigit then some (n * 10 + (c.toNat - 48)) else none
+      | none => none) (some 0)
+
+/-- an integer literal -/
+def parseIntLit : List Char → Option Int
+  | '-' :: rest => (parseNatLit rest).map fun n => -(n : Int)
+  | cs => (parseNatLit cs).map fun n => (n : Int)
+
 /-- `v == <literal>` for the zero literals of the type table (`""`, `0`, `false`); `none`: literal not understood -/
 def eqLiteral (lit : String) (v : Sc) : Option Bool :=
   match v with
   | .str s => if lit == "\"\"" then some s.isEmpty else none
   | .b x => if lit == "false" then some (x == false) else if lit == "true" then some (x == true) else none
-  | .w64 x => match lit.toInt? with | some n => some (x.toInt == n) | none => none
+  | .w64 x => match parseIntLit lit.toList with | some n => some (x.toInt == n) | none => none
   | .f64 x => if lit == "0" then some (F.isZero64 x) else none
   | _ => none
 
